@@ -2,7 +2,7 @@
 (* C14: all slice lengths x start alignments x declared sizes x header kinds. *)
 EXTENDS MCBase
 
-CONSTANTS MaxLen, MaxDecl
+CONSTANTS MaxLen, MaxDecl, HeaderNames
 
 Marker(i) == (i * 7 + 3) % 251
 \* header bytes: enumerated fields hold defined values (type 1 / arch 0 / flags 0)
@@ -18,7 +18,7 @@ Image(H, len, declared) ==
   [i \in 1..len |-> IF i <= Len(hb) THEN hb[i] ELSE Marker(i)]
 
 RSParams == { [h |-> H.name, len |-> len, al |-> a, declared |-> d]
-              : H \in Headers, len \in 0..MaxLen, a \in 0..7, d \in 0..MaxDecl }
+              : H \in {x \in Headers : x.name \in HeaderNames}, len \in 0..MaxLen, a \in 0..7, d \in 0..MaxDecl }
 RSCase(p) ==
   [mem |-> Image(HeaderByName(p.h), p.len, p.declared), al |-> p.al,
    calls |-> <<[op |-> "bytes_ref", h |-> p.h], [op |-> "ref_from_slice", h |-> p.h]>>,
